@@ -49,6 +49,15 @@ SHAPES = {
     "D3t": [("o.torrent",), ("d", "o.torrent"), ("e",)],
 }
 
+# process-environment axis of the recheck checks: a short name first, then
+# names wider than a quarter of a narrow terminal with long extensions (what
+# a progress display has to shorten), one of them not ASCII (what an ASCII
+# filesystem encoding cannot spell), one in a sub-directory
+SHAPES["D4env"] = [("a",), ("index.properties",),
+                   ("d", "été-report.torrent"), ("z.bin",)]
+# the same without the non-ASCII name
+SHAPES["D4enva"] = [("a",), ("index.properties",),
+                    ("d", "report.torrent"), ("z.bin",)]
 
 # directories without any file below them (created next to the files)
 EMPTY_DIRS = {"D3e": [("e",), ("d", "f", "g"), ("zz",)]}
